@@ -154,6 +154,9 @@ def in_domain(g, op):
         i0 = names.index(op[2])
         n1, n3 = col.node[(i0 + 1) % 4], col.node[(i0 + 3) % 4]
         return not any(n3 in c.node and n1 in c.node for c in col.neighbour)
+    # the snap / fit_surface theorems are about layers that lie one below the other (add_layer accepts any elevations)
+    if k in ('sn', 'fs'): return L.layers_descend(g)
+    if k == 'sr': return L.layers_stacked(g)
     if k in L.COMPOUND: return L.conforming(g)      # the quantifier ranges over meshes: no overlapping columns
     return True
 
@@ -235,6 +238,17 @@ def fresh_colname(g, k=0):
     return ' qq'[-g.colname_length:]
 
 
+def fs_ok(g):
+    """fit_surface is exercised on geometries it is meant for: a layer to fit into, every column with a surface, a conforming mesh"""
+    return len(g.layerlist) > 1 and len(g.columnlist) > 0 and all(c.surface is not None for c in g.columnlist) and \
+        all(3 <= len(c.node) <= 8 for c in g.columnlist) and L.conforming(g) and not L.mesh_defects(g)
+
+
+def fs_op(g, names, zfun, snap):
+    """('fs', columns, data, layer_snap): one datum at the centre of every column"""
+    return ('fs', list(names), [(float(c.centre[0]), float(c.centre[1]), float(zfun(i, c))) for i, c in enumerate(g.columnlist)], float(snap))
+
+
 def alphabet(g, n, level):
     """edits tried at a node of the exhaustive tree whose current geometry is `g`.
     level 0: a core of every kind of edit; level 1: every column / corner / connection as argument, malformed calls;
@@ -311,6 +325,15 @@ def alphabet(g, n, level):
         ops.append(('ry', [], 2))
         if level > 0: ops.append(('ry', [lays[1]], 4 if level >= 2 else 2))
         ops.append(('sn', 6.0, [])); ops.append(('sn', 5.0, [])); ops.append(('sr', []))
+        if fs_ok(g):
+            ll = g.layerlist
+            l2 = ll[2] if len(ll) > 2 else ll[1]
+            # fit_surface: (a) every fitted surface in the middle of a layer, nothing to snap (the layer counts change);
+            # (b) surfaces just above a layer bottom, snapped
+            ops.append(fs_op(g, [], lambda i, c: l2.centre, 0.5))
+            if level > 0:
+                ops.append(fs_op(g, [], lambda i, c: l2.bottom + 0.25, 1.0))
+                ops.append(fs_op(g, names[:1], lambda i, c: l2.centre + 0.125 * i, 0.0))
         if level > 0: ops.append(('sr', names[:1]))
         ops.append(('cl', [(lays[0], 0., 0., 0.), ('zz'[-g.layername_length:].rjust(g.layername_length), -4., -2., 0.), (lays[1], -12., -8., -4.)]))
     ops.append(('tl', 5., -3., 2.)); ops.append(('ro', 30.))
@@ -432,7 +455,7 @@ def random_op(rng, g, p_bad):
     bad = rng.random() < p_bad
     kinds = ['sp'] * 12 + ['dc'] * 7 + ['rc'] * 9 + ['rl'] * 4 + ['dk'] * 4 + ['ak'] * 5 + ['dn'] * 2 + ['an'] * 2 + ['ac'] * 3 + \
             ['al'] * 2 + ['dl'] * 2 + ['aw'] * 1 + ['dw'] * 1 + ['do'] * 4 + ['in'] * 4 + ['sb'] * 3 + ['sk'] * 3 + ['nl'] * 3 + ['ss'] * 5 + \
-            ['rf'] * 10 + ['rd'] * 5 + ['de'] * 5 + ['cf'] * 4 + ['tr'] * 2 + ['ry'] * 3 + ['cl'] * 2 + ['sn'] * 4 + ['sr'] * 2 + ['tl'] * 3 + ['ro'] * 2
+            ['rf'] * 10 + ['rd'] * 5 + ['de'] * 5 + ['cf'] * 4 + ['tr'] * 2 + ['ry'] * 3 + ['cl'] * 2 + ['sn'] * 4 + ['sr'] * 2 + ['fs'] * 3 + ['tl'] * 3 + ['ro'] * 2
     k = rng.choice(kinds)
     if k == 'rf':
         if not names: return ('cf',)
@@ -464,6 +487,13 @@ def random_op(rng, g, p_bad):
         return ('cl', ls)
     if k == 'sn': return ('sn', float(rng.choice([0, 1, 3, 6])), [] if rng.random() < 0.5 or not names else rng.sample(names, min(len(names), 3)))
     if k == 'sr': return ('sr', [] if rng.random() < 0.5 or not names else rng.sample(names, min(len(names), 3)))
+    if k == 'fs':
+        if not fs_ok(g) or len(names) > 120: return ('sn', 1.0, [])
+        lo, hi = g.layerlist[-1].bottom, g.layerlist[0].top
+        base = lo + (hi - lo) * rng.random()
+        slope = rng.choice([0.0, 0.0, 0.02, 0.3])
+        return fs_op(g, [] if rng.random() < 0.6 else rng.sample(names, min(len(names), 3)),
+                     lambda i, c: base + slope * (i % 7), rng.choice([0.0, 0.5, 1.0, 3.0]))
     if k == 'tl': return ('tl', float(rng.randint(-20, 20)), float(rng.randint(-20, 20)), float(rng.choice([0, 0, -4, 8])))
     if k == 'ro': return ('ro', float(rng.choice([15, 30, 90, -45])))
     if k == 'sp':
